@@ -473,6 +473,12 @@ func DriverMain(propID, tier string, seed uint64, replayPath string) int {
 		}
 	}
 
+	for k, v := range cov {
+		// a monitor can declare its own oracle unreliable for this run
+		if strings.HasPrefix(k, "~inconclusive:") && v > 0 {
+			d.inconcl = append(d.inconcl, fmt.Sprintf("%s (%d times)", strings.TrimPrefix(k, "~inconclusive:"), v))
+		}
+	}
 	for _, m := range p.Mandatory(tier) {
 		if cov[m] == 0 {
 			d.inconcl = append(d.inconcl, "mandatory coverage class never observed: "+m)
